@@ -340,6 +340,7 @@ func genCase(t *rapid.T) Case {
 		c.Origin = "generated"
 		o := gen.AllStyles()
 		o.CRLF, o.NoFinalNewline, o.BlankInScalar, o.DQEscapes, o.IndentInd, o.ShallowCont, o.HeaderComment = true, true, true, true, true, true, true
+		o.Aliases = true
 		s := gen.NewStyler(t, o)
 		d := gen.GenDoc(t, 2, 3)
 		// unusual (valid) PromQL and templates so that the inputs reach deep into the checks
@@ -369,6 +370,7 @@ func genCase(t *rapid.T) Case {
 		for _, g := range d.Groups {
 			groups.Items = append(groups.Items, s.Group(g))
 		}
+		s.Alias(groups)
 		root := &gen.Node{Kind: gen.MapKind, Pairs: []gen.Pair{{Key: gen.P("groups"), Val: groups}}}
 		p.Apply(root, rapid.IntRange(0, 3).Draw(t, "nmut"))
 		if rapid.IntRange(0, 3).Draw(t, "keymut") == 0 {
